@@ -11,7 +11,7 @@ use flsrc::board::Board;
 use refchess::{Kind, Mv, Pos};
 use serde_json::{json, Value};
 
-pub const RULE: &str = "(valid position, legal move) pairs: every legal move of each position from the C01 mixture, and lock-step playouts of 0..300 plies (weighted toward castling, ep, promotions onto corners, king/rook moves). Oracle: engine board after make_move/clone_with_move compared with the reference successor on placement (64 squares), side to move, four castling rights, ep target (exact when an enemy pawn stands beside the pushed pawn, else rule-book square or none), and internal consistency (piece bitboards disjoint, colours disjoint, unions equal, one king each); no panic. Non-trivial step = castle, ep, promotion, double push, king/rook move while a right is held, capture on a corner whose right is held; distinct by (FEN before, move).";
+pub const RULE: &str = "(valid position, legal move) pairs: every legal move of each position from the C01 mixture, and lock-step playouts of 0..300 plies (weighted toward castling, ep, promotions onto corners, king/rook moves). Enumerated parts (grid.rs): the castling-rights bookkeeping grid (kings and four rooks at home, every subset of the rights, either side to move, one further man of every kind and colour on every square: every legal move played, both by make_move and by clone_with_move) and every legal move of the check-geometry grid of C01/C17. Oracle: engine board after make_move/clone_with_move compared with the reference successor on placement (64 squares), side to move, four castling rights, ep target (exact when an enemy pawn stands beside the pushed pawn, else rule-book square or none), and internal consistency (piece bitboards disjoint, colours disjoint, unions equal, one king each); no panic. Non-trivial step = castle, ep, promotion, double push, king/rook move while a right is held, capture on a corner whose right is held; distinct by (FEN before, move).";
 
 fn step_class(p: &Pos, m: Mv) -> Option<&'static str> {
     let i = p.info(m);
@@ -142,6 +142,26 @@ fn part_playouts(bytes: &[u8], stats: &mut Stats) -> Verdict {
     check_game(&start, &moves, in_place, stats)
 }
 
+fn judge_grid(it: &crate::grid::GridItem, stats: &mut Stats) -> Verdict {
+    let built = if it.fam == 5 { crate::grid::build_rights(it) } else { crate::grid::build(it) };
+    let Some(p) = built else {
+        stats.exclude("grid combination that is not a valid position");
+        return Ok(());
+    };
+    stats.class(if it.fam == 5 { "grid_castling_rights_bookkeeping" } else { crate::grid::describe(it) });
+    eng::set_counter_wish(0, 1);
+    let b = guarded("Board::new", || eng::to_board(&p))?;
+    for m in p.legal_moves() {
+        for in_place in [false, true] {
+            step(&b, &p, m, in_place, stats).map_err(|mut f| {
+                f.detail["replay"] = json!({"start_fen": eng::fen(&p), "moves": [m.uci()], "in_place": in_place});
+                f
+            })?;
+        }
+    }
+    Ok(())
+}
+
 pub fn run(tier: Tier, seed: u64, known: &Known) -> PropRun {
     let mut run = PropRun::new("exploration", RULE);
     run.assumptions = vec![
@@ -152,6 +172,19 @@ pub fn run(tier: Tier, seed: u64, known: &Known) -> PropRun {
         ("allmoves", tier.pick(200_000, 1_000_000), 160, part_allmoves),
         ("playouts", tier.pick(12_000, 60_000), 700, part_playouts),
     ];
+    // enumerated parts first: the castling-rights bookkeeping grid and the check-geometry grid
+    // (grid.rs) — every legal move of every grid position is played, both ways of playing it
+    let mut items = crate::grid::rights_items();
+    let n_rights = items.len();
+    items.extend(crate::grid::items());
+    run.stats.class_n("rights_grid_items_enumerated", n_rights as u64);
+    run.stats.class_n("geometry_grid_items_enumerated", (items.len() - n_rights) as u64);
+    let (st, fail) = crate::runner::run_enumerated("grid", &items, threads(), seed, known, |it, st| judge_grid(it, st));
+    run.stats.merge(st);
+    if fail.is_some() {
+        run.failure = fail;
+        return run;
+    }
     for (name, cases, max_len, f) in parts {
         let part = Part { name, cases, min_len: 8, max_len, max_shrink: 4000, threads: threads() };
         let (st, fail) = run_part(&part, seed, known, f);
